@@ -2,6 +2,7 @@ package main
 
 import (
 	"fmt"
+	"iter"
 	"math/rand/v2"
 	"os"
 	"runtime"
@@ -107,7 +108,7 @@ func (s *schedSim) step(i int) {
 	if l == "commit-before-rootlock" || (th.kind == "register" && l == "start") {
 		s.mu = i
 	}
-	if l == "commit-stored" || l == "register-stored" {
+	if l == "commit-stored" || l == "register-stored" || (th.kind == "register" && l == "register-locked" && len(th.labels) == 2) {
 		s.mu = -1
 	}
 	th.pc++
@@ -141,8 +142,14 @@ func genSched(cfg Config, emit func(string, bool, []string)) {
 		initRegistered := false
 		for t := 0; t < nthreads; t++ {
 			if r.IntN(6) == 0 && nreg < 2 {
-				add("register")
-				sim.threads = append(sim.threads, &simThread{kind: "register", labels: []string{"start", "register-locked", "register-stored"}})
+				if r.IntN(3) == 0 {
+					// a registration rejected for its duplicate name
+					add("register dup")
+					sim.threads = append(sim.threads, &simThread{kind: "register", labels: []string{"start", "register-locked"}})
+				} else {
+					add("register")
+					sim.threads = append(sim.threads, &simThread{kind: "register", labels: []string{"start", "register-locked", "register-stored"}})
+				}
 				nreg++
 				continue
 			}
@@ -260,6 +267,7 @@ type schedEvent struct {
 type schedThread struct {
 	kind         string
 	req          []int
+	dup          bool
 	tables       []int
 	commit       bool
 	mark         []int
@@ -387,8 +395,26 @@ func (e *schedExec) describe() string {
 	return strings.Join(parts, " ") + fmt.Sprintf(" holder=%v", e.holder)
 }
 
+var ctrLpmIndex = statedb.LPMIndex[*ctrObj]{
+	Name: "lpm",
+	FromObject: func(o *ctrObj) iter.Seq2[[]byte, statedb.PrefixLen] {
+		return func(yield func([]byte, statedb.PrefixLen) bool) {
+			yield([]byte{10, byte(o.Val)}, 16)
+		}
+	},
+	Unique: false,
+}
+
+var ctrTagIndex = statedb.Index[*ctrObj, string]{
+	Name:       "tag",
+	FromObject: func(o *ctrObj) index.KeySet { return index.NewKeySet(index.String("t")) },
+	FromKey:    index.String,
+	FromString: index.FromString,
+	Unique:     false,
+}
+
 func (e *schedExec) newTable(name string) {
-	t, err := statedb.NewTable(e.db, name, ctrIndex)
+	t, err := statedb.NewTable(e.db, name, ctrIndex, ctrLpmIndex, ctrTagIndex)
 	if err != nil {
 		panic(err)
 	}
@@ -470,6 +496,12 @@ func (e *schedExec) threadBody(tid int) {
 	}()
 	e.park("start")
 	if th.kind == "register" {
+		if th.dup {
+			if _, err := statedb.NewTable(e.db, "t0", ctrIndex, ctrLpmIndex, ctrTagIndex); err == nil {
+				panic("duplicate table name accepted")
+			}
+			return
+		}
 		e.newTable(fmt.Sprintf("r%d", tid))
 		return
 	}
@@ -574,6 +606,7 @@ func (e *schedExec) Do(o *Out, f []string) string {
 		return "ok"
 	case "writer", "register":
 		th := &schedThread{kind: f[0], resume: make(chan struct{}), seenRev: map[int]uint64{}, seenCnt: map[int]int{}}
+		th.dup = f[0] == "register" && len(f) > 1 && f[1] == "dup"
 		if f[0] == "writer" {
 			th.req = parseInts(f[1])
 			set := map[int]bool{}
@@ -669,6 +702,14 @@ func (e *schedExec) Do(o *Out, f []string) string {
 				_, w := t.AllWatch(rtx)
 				a := e.name(w)
 				e.record(w, a, i, t.Revision(rtx), false)
+				// channels of the other index kinds obey the same ordering; they are recorded for
+				// the closed-implies-visible oracle but not named in the observation
+				_, lw := t.ListWatch(rtx, ctrLpmIndex.Query([]byte{10, 0}, 8))
+				e.record(lw, "lpm", i, t.Revision(rtx), false)
+				_, tw := t.ListWatch(rtx, ctrTagIndex.Query("t"))
+				e.record(tw, "tag", i, t.Revision(rtx), false)
+				_, _, gw, _ := t.GetWatch(rtx, ctrIndex.Query("ctr"))
+				e.record(gw, "get", i, t.Revision(rtx), false)
 				ok, iw := t.Initialized(rtx)
 				b := "inited"
 				if !ok {
